@@ -172,7 +172,32 @@ def st_joe(ctx):
         _write(p, bad)
         ok, _, _ = p_joe.validate_joe_trace(ctx, p, "st_nilret")
         results.append(not ok)
+    if not (ok_clean and len(results) >= 2 and all(results)):
+        core.log("selftest joe: clean trace accepted=%s, corrupted traces rejected=%s" % (ok_clean, results))
     return ok_clean and len(results) >= 2 and all(results)
+
+
+def st_steer(ctx):
+    """Direction A for Joe: TLC's behaviours are followed by the real code (some of them step by step), the recorded trace is
+    accepted, and the same trace with one event moved before the step that enables it is rejected."""
+    agg = p_joe.new_agg()
+    cases, total, per = p_joe.steer_cases(ctx, ["tiny@View1"], 10, "st")
+    trace, crashed, blocked = p_joe.run_steered(ctx, cases, total, 0, "st-steer")
+    if crashed or blocked:
+        return False
+    stats = core.read_json(trace + ".stats")
+    ok_clean, _, _ = p_joe.validate_joe_trace(ctx, trace, "st_steer_clean")
+    lines = _lines(trace)
+    # move the first loop.register in front of the loop.sub that precedes it: a registration without a subscription request
+    k = next(i for i, l in enumerate(lines) if '"e":"loop.register"' in l)
+    j = max(i for i in range(k) if '"e":"loop.sub"' in lines[i])
+    bad = lines[:j] + [lines[k]] + lines[j:k] + lines[k + 1:]
+    p = trace + ".reordered"
+    _write(p, bad)
+    ok_bad, _, _ = p_joe.validate_joe_trace(ctx, p, "st_steer_bad")
+    if not (ok_clean and not ok_bad and stats.get("Exact", 0) > total // 4):
+        core.log("selftest steer: clean accepted=%s, reordered accepted=%s, stats=%s" % (ok_clean, ok_bad, stats))
+    return ok_clean and not ok_bad and stats.get("Exact", 0) > total // 4
 
 
 TESTS = {
@@ -182,6 +207,7 @@ TESTS = {
     "scan": (st_scan, ["C20"]),
     "message": (st_message, ["C02", "C14", "C15", "C19"]),
     "joe": (st_joe, ["C03", "C04", "C06", "C07", "C17"]),
+    "steer": (st_steer, ["C03", "C04", "C06", "C07", "C17"]),
 }
 
 
